@@ -161,6 +161,19 @@ func allDefsAreBase(v ssa.Value) bool {
 			}
 		}
 		return true
+	case *ssa.BinOp:
+		// name rebuilt by concatenation from pieces of a Base()d name and constants
+		if x.Op == token.ADD {
+			for _, o := range []ssa.Value{x.X, x.Y} {
+				if _, isC := o.(*ssa.Const); isC {
+					continue
+				}
+				if untrustedSource(o) != "" && !derivesOnlyFromBase(o) && !allDefsAreBase(o) {
+					return false
+				}
+			}
+			return true
+		}
 	}
 	return false
 }
